@@ -58,7 +58,13 @@ fn exec(store: &Arc<FeoxStore>, keys: &[Vec<u8>], op: &Value, vals: &Mutex<ValTa
     let r = match name {
         "insert" => {
             let v = bytes_of(&op["v"]);
-            let r = if op["wttl"].as_bool().unwrap_or(false) { store.insert_with_ttl_and_timestamp(key, &v, ttl, ts) } else { store.insert_with_timestamp(key, &v, ts) };
+            let as_bytes = op["bytes"].as_bool().unwrap_or(false);
+            let r = match (op["wttl"].as_bool().unwrap_or(false), as_bytes) {
+                (true, false) => store.insert_with_ttl_and_timestamp(key, &v, ttl, ts),
+                (true, true) => store.insert_bytes_with_ttl_and_timestamp(key, bytes::Bytes::from(v.clone()), ttl, ts),
+                (false, true) => store.insert_bytes_with_timestamp(key, bytes::Bytes::from(v.clone()), ts),
+                (false, false) => store.insert_with_timestamp(key, &v, ts),
+            };
             match r { Ok(b) => res("bool", b as i64, noval(), 0), Err(e) => res_err(&e) }
         }
         "get" => match store.get(key) { Ok(v) => res("val", 0, val_of(vals, &v), 0), Err(e) => res_err(&e) },
@@ -465,7 +471,7 @@ fn free_main(o: &Opts) -> i32 {
                         _ => json!({"op": "range", "lo": 1, "hi": nkeys, "lim": nkeys + 1}),
                     }
                 } else { match rng.random_range(0..14) {
-                    0 | 1 => json!({"op": "insert", "k": k, "v": v, "auto": auto, "tsv": tsv}),
+                    0 | 1 => json!({"op": "insert", "k": k, "v": v, "auto": auto, "tsv": tsv, "bytes": rng.random_bool(0.5)}),
                     2 => json!({"op": "delete", "k": k, "auto": auto, "tsv": tsv}),
                     3 | 4 => json!({"op": "get", "k": k}),
                     5 | 6 => json!({"op": "cas", "k": k, "x": pool[rng.random_range(0..pool.len())], "v": v, "auto": auto, "tsv": tsv}),
